@@ -10,7 +10,6 @@ import (
 	"github.com/go-sql-driver/mysql"
 )
 
-
 func open(t *testing.T, db string) *sql.DB {
 	d, err := sql.Open(BareName, "u:p@tcp(127.0.0.1:3306)/"+db+"?interpolateParams=true&parseTime=true&multiStatements=true")
 	if err != nil {
